@@ -55,6 +55,15 @@ class End:
         self.on_packet = None     # callback(dir, type, id) invoked under no lock, for schedulers
         self.waiting = False      # a thread is blocked in recv() with nothing to read
         self.last_move = time.time()
+        # flow control like an SSH channel window (None = unbounded): the peer may send `credit` more bytes to this
+        # end; bytes read here are handed back as credit in lumps of at least `thresh` (paramiko: 10 % of the window)
+        self.cap = None
+        self.credit = 0
+        self.consumed = 0
+        self.thresh = 0
+
+    def bound(self, cap):
+        self.cap, self.credit, self.consumed, self.thresh = cap, cap, 0, max(1, cap // 10)
 
     # --- Channel-ish API
     def get_name(self):
@@ -81,16 +90,27 @@ class End:
         m = self.mate
         if self.closed or m is None or m.closed:
             raise socket.error("pipe closed")
-        if self.tap is not None:
-            self._scan(self._tx, data, "out")
         with m.cv:
+            if m.cap is not None:
+                # like Channel.send: wait for window, then send what fits (the caller loops)
+                while m.credit <= 0:
+                    if self.closed or m.closed:
+                        raise socket.error("pipe closed")
+                    m.cv.wait(0.5)
+                data = data[:m.credit]
+                m.credit -= len(data)
             m.buf += data
             m.last_move = time.time()
             m.cv.notify_all()
+        if self.tap is not None:
+            self._scan(self._tx, data, "out")
         return len(data)
 
     def sendall(self, data):
-        self.send(data)
+        data = bytes(data)
+        while data:
+            n = self.send(data)
+            data = data[n:]
 
     def recv(self, n):
         deadline = None if self.timeout is None else time.time() + self.timeout
@@ -101,6 +121,12 @@ class End:
                     del self.buf[:n]
                     self.waiting = False
                     self.last_move = time.time()
+                    if self.cap is not None:
+                        self.consumed += len(out)
+                        if self.consumed >= self.thresh:      # window adjust
+                            self.credit += self.consumed
+                            self.consumed = 0
+                            self.cv.notify_all()
                     break
                 if self.closed or self.mate is None or (self.mate.closed and not self.buf):
                     self.waiting = False
@@ -363,13 +389,17 @@ CMD_INIT, CMD_VERSION = 1, 2
 class Session:
     """a real SFTPServer thread on one end of a byte pipe; the other end is `self.c`"""
 
-    def __init__(self, root, knobs=None, tap=False):
+    def __init__(self, root, knobs=None, tap=False, caps=None):
+        """caps = (bytes client -> server, bytes server -> client): bounded pipes with SSH-window-like credit"""
         paramiko, Iface = make_server_classes()
         self.paramiko = paramiko
         self.root = str(root)
         os.makedirs(self.root, exist_ok=True)
         self.knobs = knobs or Knobs()
         self.c, self.s = pipe_pair()
+        if caps:
+            self.s.bound(caps[0])
+            self.c.bound(caps[1])
         if tap:
             self.c.tap = []
         self.server = paramiko.SFTPServer(self.s, "sftp", None, Iface, root=self.root, knobs=self.knobs)
@@ -399,6 +429,10 @@ class Session:
             return 0.0
         return time.time() - max(self.s.last_move, self.c.last_move)
 
+    def stalled_for(self):
+        """seconds since a byte last moved in either direction (whatever the threads are doing)"""
+        return time.time() - max(self.c.last_move, self.s.last_move)
+
     def quiet_for(self):
         """seconds for which nothing has moved while BOTH the client side and the server sit in recv() with
         nothing to read (0.0 if either is doing something).  A client call that stays in this state is not
@@ -415,7 +449,7 @@ class Session:
             raise RuntimeError("no VERSION from the server: %r" % (p,))
 
     def raw_send(self, t, body):
-        self.c.send(struct.pack(">I", len(body) + 1) + bytes([t]) + body)
+        self.c.sendall(struct.pack(">I", len(body) + 1) + bytes([t]) + body)
 
     def raw_recv(self, timeout):
         """next packet from the server as (type, body) or None on timeout / EOF"""
@@ -483,7 +517,7 @@ class Worker:
             self.busy = False
             self.wake.set()
 
-    def call(self, fn, deadline, idle=None, quiet=None):
+    def call(self, fn, deadline, idle=None, quiet=None, stalled=None, stall=None):
         """("ok", v) | ("exc", e) | ("hang", "spin" | "deadline" | "quiet").  idle() = seconds of proven
         quiescence of the session (see Session.quiet_for); more than `quiet` of it is reported as a hang."""
         if self.busy:
@@ -504,6 +538,8 @@ class Worker:
                 return ("hang", "spin")
             if idle is not None and idle() >= quiet:
                 return ("hang", "quiet")
+            if stalled is not None and stalled() >= stall:
+                return ("hang", "stalled")
             if time.time() >= end:
                 return ("hang", "deadline")
             if self.wake.is_set():
@@ -748,7 +784,8 @@ class ProgramRunner:
 
     confirmed = {}          # call signature -> number of blocked calls confirmed by the long wait (per process)
 
-    def __init__(self, root, size, seed, short=False, quiet=0.25, confirm=2.0, deadline=30.0, faults=None):
+    def __init__(self, root, size, seed, short=False, quiet=0.25, confirm=2.0, deadline=30.0, faults=None,
+                 bufsize=-1, caps=None, stall=6.0):
         import random
         quiet_thread_errors()
         self.rnd = random.Random(seed)
@@ -766,10 +803,11 @@ class ProgramRunner:
         if faults:
             self.kn.read_fault = dict(faults.get("read", {}))
             self.kn.write_fault = dict(faults.get("write", {}))
-        self.sess = Session(self.root, self.kn)
+        self.sess = Session(self.root, self.kn, caps=caps)
         self.client = self.sess.client()
         self.worker = Worker(None)
         self.quiet, self.confirm, self.deadline = quiet, confirm, deadline
+        self.bufsize, self.stall = bufsize, stall
         self.fr = None
         self.fw = None
         self.files = []
@@ -778,7 +816,10 @@ class ProgramRunner:
     def call(self, sig, fn):
         """like Worker.call, but a falsely suspected hang resumes waiting for the same call"""
         w = self.worker
-        res = w.call(fn, self.deadline, idle=self.sess.quiet_for, quiet=self.quiet)
+        # "stalled": not a byte has moved for `stall` seconds although a call is outstanding (covers a caller that
+        # waits for a lock instead of sitting in recv())
+        res = w.call(fn, self.deadline, idle=self.sess.quiet_for, quiet=self.quiet,
+                     stalled=self.sess.stalled_for, stall=self.stall)
         t_end = time.time() + self.deadline
         while res == ("hang", "quiet"):
             if ProgramRunner.confirmed.get(sig, 0) >= 3:
@@ -881,7 +922,7 @@ class ProgramRunner:
     def _ensure(self, which, pipelined=True):
         """open the read / write file under the watchdog; None if fine, else the outcome of the failed open"""
         if which == "r" and self.fr is None:
-            res = self.call(("open",), lambda: self.client.open("r", "rb"))
+            res = self.call(("open",), lambda: self.client.open("r", "rb", self.bufsize))
             if res[0] != "ok":
                 return res
             self.fr = res[1]
@@ -912,14 +953,18 @@ class ProgramRunner:
             rec = dict(op)
             k = op["op"]
             outcome = None
-            need = "r" if k in ("seek", "prefetch", "read", "readv", "closeR") else ("w" if k in ("write", "closeW") else None)
+            need = "r" if k in ("seek", "prefetch", "read", "readv", "closeR", "pause") else ("w" if k in ("write", "closeW") else None)
             bad = self._ensure(need, op.get("pipelined", True)) if need else None
             if bad is not None:
                 recs.append({"op": "open", "out": bad[0], "short": False,
                              "exc": type(bad[1]).__name__ if bad[0] == "exc" else bad[1]})
                 break
             if k == "seek":
-                outcome = self.call(("seek",), lambda: self.reader().seek(op["p"]))
+                outcome = self.call(("seek",), lambda: self.reader().seek(op["p"], op.get("whence", 0)))
+                rec["whence"] = op.get("whence", 0)
+            elif k == "pause":
+                time.sleep(op["t"])           # the application does something else for a moment
+                outcome = ("ok", None)
             elif k == "prefetch":
                 m = op["maxc"] or None
                 fs = self.size if op.get("fsize", True) else None
